@@ -272,7 +272,13 @@ func init() {
 							continue
 						}
 						if err != nil {
-							return "trunc-error", fmt.Sprintf("seq %v cut at %d/%d: %v", seq, cut, len(data), err)
+							class := "trunc-error"
+							if strings.Contains(err.Error(), "greater than file size") {
+								// known finding F7b: the torn last record's length field exceeds the size of the
+								// (still tiny) file and the over-allocation guard reports corruption
+								class = "trunc-error/length-exceeds-file-size"
+							}
+							return class, fmt.Sprintf("seq %v cut at %d/%d: %v", seq, cut, len(data), err)
 						}
 						want := c17Model{}
 						wantOff := int64(8)
